@@ -356,7 +356,7 @@ func run(e *core.Env) {
 		frameSrc := sender.IP
 		sealer := sender
 		lie := ""
-		liePick := tp.Pick(10, 1, 1, 1, 1, 1)
+		liePick := tp.Pick(10, 2, 1, 1, 1, 1)
 		if flooding {
 			liePick = 0
 		}
